@@ -454,6 +454,7 @@ Qed.
 Lemma rv_from_items v : RV v -> okP RV (from_items v).
 Proof.
   destruct v as [| | | |a| |]; try exact (fun _ => I). intros H. apply RV_arr in H. cbn [from_items].
+  destruct (forallb is_arr a); [|exact I].
   eapply okP_bind; [apply rv_from_items_loop; [exact H|exact RVm_nil]|].
   intros m Hm. apply RV_obj. exact Hm.
 Qed.
@@ -976,7 +977,7 @@ Proof.
   - eexists; reflexivity.
   - destruct b; eexists; reflexivity.
   - eexists; reflexivity.
-  - destruct n; try discriminate; cbn [jprint jnum]; [rewrite H|]; eexists; reflexivity.
+  - destruct n as [t| | |]; try discriminate; cbn [jprint jnum]; [destruct t; [|rewrite H]|]; eexists; reflexivity.
   - cbn [jprint].
     match goal with |- exists s, bind ?g _ = _ => assert (E : exists ps, g = Ok ps) end.
     { revert l H. fix IHl 1. intros [|x r] H; [eexists; reflexivity|].
